@@ -35,9 +35,16 @@ func (f *indexedField) UnmarshalJSON(data []byte) (err error) {
 	if err = dec.Decode(&tuple); err != nil {
 		return err
 	}
+	if len(tuple) != 2 {
+		return fmt.Errorf("%w: expecting a [value, id] tuple, got %s", ErrMalformedSchema, data)
+	}
 	f.Value = tuple[0]
-	f.ObjectId, err = strconv.ParseUint(tuple[1].(json.Number).String(), 10, 64)
-	return err
+	if id, ok := tuple[1].(json.Number); !ok {
+		return fmt.Errorf("%w: object id is not a number in %s", ErrMalformedSchema, data)
+	} else if f.ObjectId, err = strconv.ParseUint(id.String(), 10, 64); err != nil {
+		return fmt.Errorf("%w: bad object id in %s: %s", ErrMalformedSchema, data, err)
+	}
+	return nil
 }
 
 func (f *indexedField) String() string {
@@ -80,39 +87,53 @@ func newIndexedField(value interface{}, objid uint64) (*indexedField, error) {
 	return &indexedField{value, objid}, err
 }
 
-func (f *indexedField) valueTypeFromString(t string) {
-	// we cast everything to float64 because json unmarshal interface{}
-	// to float64 and that is a current limitation of the indexing
-	if n, ok := f.Value.(json.Number); ok {
-		// value decoded by UnmarshalJSON, converted without precision loss
-		var err error
+func (f *indexedField) valueTypeFromString(t string) (err error) {
+	// values are decoded as json.Number (see UnmarshalJSON) or as string
+	// and converted to the type the field index is made of
+	switch v := f.Value.(type) {
+	case json.Number:
 		switch t {
 		case "float64":
-			f.Value, err = strconv.ParseFloat(n.String(), 64)
+			f.Value, err = strconv.ParseFloat(v.String(), 64)
 		case "int64":
-			f.Value, err = strconv.ParseInt(n.String(), 10, 64)
+			f.Value, err = strconv.ParseInt(v.String(), 10, 64)
 		case "uint64":
-			f.Value, err = strconv.ParseUint(n.String(), 10, 64)
+			f.Value, err = strconv.ParseUint(v.String(), 10, 64)
+		case "string":
+			err = fmt.Errorf("cannot cast number %s to string", v)
 		default:
 			err = fmt.Errorf("%w %s", ErrUnknownKeyType, t)
 		}
-		if err != nil {
-			panic(err)
+	case float64:
+		// value decoded without json.Number
+		switch t {
+		case "float64":
+		case "int64":
+			f.Value = int64(v)
+		case "uint64":
+			f.Value = uint64(v)
+		case "string":
+			err = fmt.Errorf("cannot cast number %v to string", v)
+		default:
+			err = fmt.Errorf("%w %s", ErrUnknownKeyType, t)
 		}
-		return
+	case string:
+		switch t {
+		case "string":
+		case "float64", "int64", "uint64":
+			err = fmt.Errorf("cannot cast string %q to %s", v, t)
+		default:
+			err = fmt.Errorf("%w %s", ErrUnknownKeyType, t)
+		}
+	default:
+		err = fmt.Errorf("%w %T", ErrUnknownKeyType, f.Value)
 	}
 
-	switch t {
-	case "float64":
-		f.Value = f.Value.(float64)
-	case "int64":
-		f.Value = int64(f.Value.(float64))
-	case "uint64":
-		f.Value = uint64(f.Value.(float64))
-	case "string":
-	default:
-		panic(fmt.Errorf("%w %s", ErrUnknownKeyType, t))
+	if err != nil {
+		err = fmt.Errorf("%w: %s", ErrMalformedSchema, err)
 	}
+
+	return
 }
 
 func (f *indexedField) valueTypeString() string {
